@@ -1,14 +1,21 @@
 #!/bin/bash
 # tools/adopt_seed.sh <Cxx> <mutN> <check> [<check>...]
-# confirm the seeded change independently, run our checks against it, and keep it under /verif/seeded/
+# Confirm the seeded change independently (or reuse the confirmation recorded by a parallel
+# tools/confirm_all.sh run), run our checks against it, and keep it under /verif/seeded/.
+# SEED_OFFSET=k numbers the kept change <Cxx>-<N+k> (later seeding rounds).
 set -u
 ID="$1"; MUT="$2"; shift; shift
 WT=/tmp/wt/$ID
 N=$(( ${MUT#mut} + ${SEED_OFFSET:-0} ))
 DEST=/verif/seeded/$ID-$N
-CONF=$(/verif/tools/confirm_seed.sh "$WT" "$MUT" 2>&1 | tail -1); RC=$?
+if [ -s "$WT/_seeded/$MUT/confirm.line" ]; then
+  CONF=$(cat "$WT/_seeded/$MUT/confirm.line"); RC=$(cat "$WT/_seeded/$MUT/confirm.rc")
+else
+  CONF=$(/verif/tools/confirm_seed.sh "$WT" "$MUT" 2>&1 | tail -1)
+  if echo "$CONF" | grep -q "demo_on_clean_tree=pass" && echo "$CONF" | grep -q "177/177" && echo "$CONF" | grep -q "demo_with_patch=fails"; then RC=0; else RC=1; fi
+fi
 echo "$CONF"
-if [ $RC -ne 0 ]; then echo "ADOPT $ID $MUT: NOT CONFIRMED"; exit 1; fi
+if [ "$RC" -ne 0 ]; then echo "ADOPT $ID $MUT: NOT CONFIRMED"; exit 1; fi
 RES=$(/verif/tools/run_on_seed.sh "$WT/_seeded/$MUT/patch.diff" "$@" 2>&1)
 echo "$RES"
 mkdir -p "$DEST"
